@@ -480,7 +480,7 @@ def check(run):
     vlib.log('C02: corpus %.0fs' % (_t.time() - t0)); t0 = _t.time()
     uitests(run, sides)
     vlib.log('C02: ui-tests anchor %.0fs' % (_t.time() - t0)); t0 = _t.time()
-    n = 800 if run.tier == 'quick' else 40000
+    n = 800 if run.tier == 'quick' else 20000
     sizes = [12, 25, 40, 60] if run.tier == 'quick' else [12, 25, 40, 60, 100, 150]
     batch = 400 if run.tier == 'quick' else 2000
     done = 0
